@@ -29,6 +29,19 @@ CHECKS = {
     ),
 }
 
+CHECKS["C01"] = dict(
+    category="translation_validation",
+    text=("Proof-carrying results: every (d, a, b) returned by gjk_distance_jolt on generated pairs (all 10 collider kinds, "
+          "Margin, lattice/degenerate/constructed-gap placements) is converted to exact rationals and judged inside coqc by "
+          "dist_cert (Checker/Narrow.v); its Coq soundness theorem (Props/C01.v, over the reals, for arbitrary shape expressions) "
+          "gives for that input exactly C01: a within tau of A, b within tau of B, ||a-b|-d| <= tau, no pair of points closer "
+          "than d - tau, some pair within d + 3 tau, tau = 1e-5 L. The checker and its soundness are proved once for all inputs; "
+          "universality over inputs comes from generation. No theorem about the floating-point GJK loop itself (DESIGN section 7)."),
+    design_ref="DESIGN.md section 5, C01; section 2.3",
+    technique="Coq-proven certificate checker (separating direction + membership witnesses) evaluated by vm_compute on the implementation's outputs",
+    note=TB + "; harness/narrow.py parts() (collider spec -> shape expression) is trusted; witnesses are untrusted",
+)
+
 NA_DEFAULT = "check not built yet (work in progress; DESIGN.md section 5 has the plan)"
 NA = {}
 
